@@ -277,6 +277,12 @@ def catalogue_c15(tier):
           timed(case('c15/debounce-unsub', T('debounce', 100, ins=[S(1)]), [[E(1, 'n', 11), SL(150), UNSUB1, SL(400)]], tags=W), 100),
           timed(dict(case('c15/debounce-feedback-unsub', T('debounce', 100, ins=[S(1)]), [[E(1, 'n', 11), SL(350), UNSUB1, SL(400)]], tags=W), fb_item=11, fb_src=1, fb_v=12), 100),
           timed(dict(case('c15/observe_on-feedback-unsub', T('observe_on', ins=[S(1)]), [[E(1, 'n', 11), SL(50), UNSUB1, SL(300)]], tags=W), fb_item=11, fb_src=1, fb_v=21), 100),
+          # a stream that is over before a later input is subscribed: take_until's trigger fires while it is being subscribed, the
+          # thread-creating source is then never run (no worker is started, so none can be left behind)
+          timed(case('c15/observe_on-under-take_until-just', T('take_until', ins=[T('observe_on', ins=[S(1)]), T('just', 0)]), [[SL(300)]], tags=W), 100),
+          timed(case('c15/subscribe_on-under-take_until-just', T('take_until', ins=[T('subscribe_on', ins=[T('from_iter', items=[1, 2, 3])]), T('just', 0)]), [[SL(300)]], tags=W), 100),
+          timed(case('c15/debounce-under-take_until-just', T('take_until', ins=[T('debounce', 100, ins=[S(1)]), T('just', 0)]), [[SL(400)]], tags=W), 100),
+          timed(case('c15/interval-observe_on-under-take_until-just', T('take_until', ins=[T('observe_on', ins=[iv(100)]), T('just', 0)]), [[SL(400)]], tags=W), 100),
           timed(case('c15/timeout-complete', T('timeout', 100, ins=[S(1)]), [[E(1, 'n', 11), SL(20), E(1, 'c'), SL(500)]], tags=W), 100),
           timed(case('c15/timeout-unsub', T('timeout', 100, ins=[S(1)]), [[E(1, 'n', 11), SL(20), UNSUB1, SL(500)]], tags=W), 100),
           timed(case('c15/timeout-take2-ends-during-delivery', T('take', 2, ins=[T('timeout', 100, ins=[S(1)])]), [[E(1, 'n', 11), SL(20), E(1, 'n', 12), SL(500)]], tags=W), 100),
@@ -315,6 +321,8 @@ def catalogue_c16(tier):
             # feedback consumers: the callback fires sample's trigger again / pushes debounce's source again from inside the delivery
             cs += [timed(dict(case('c16/sample-%d-feedback' % d, T('sample', ins=[S(1), S(2)]), [[E(1, 'n', 11), E(2, 'n', 0), E(1, 'n', 12), E(2, 'n', 0), E(2, 'n', 0)]], tags=['subset']), fb_item=11, fb_src=2, fb_v=0), d),
                    timed(dict(case('c16/debounce-%d-feedback' % d, T('debounce', d, ins=[S(1)]), [[E(1, 'n', 11), SL(3 * d + d // 2), {'op': 'unsub', 'u': 1}, SL(2 * d)]], tags=['subset']), fb_item=11, fb_src=1, fb_v=12), d)]
+            # delay fed from two threads: each item is handed on d after IT was received (the sleeps are independent)
+            cs += [timed(case('c16/delay-%d-two-threads' % d, T('delay', d, ins=[S(1)]), [[E(1, 'n', 11)], [SL(d // 4), E(1, 'n', 21)]], tags=['delay']), d)]
             cs += [timed(case('c16/sample-%d-resubscribed' % d, T('sample', ins=[S(1), S(2)]), [[E(1, 'n', 11), U1, SUB2, E(2, 'n', 0), E(1, 'n', 12), E(2, 'n', 0), E(2, 'n', 0)]], tags=['subset', 'resub']), d),
                    timed(case('c16/debounce-%d-resubscribed' % d, T('debounce', d, ins=[S(1)]), [[E(1, 'n', 11), U1, SUB2, SL(d + d // 2), E(1, 'n', 12), SL(2 * d), {'op': 'unsub', 'u': 2}, SL(2 * d)]], tags=['subset', 'resub']), d)]
     return cs
@@ -347,6 +355,11 @@ def catalogue_c14(tier):
                timed(case('c14/timeout-%d-twice-fires' % d, T('timeout', d, ins=[S(1)]), [[E(1, 'n', 11), SL(40), E(1, 'n', 12), SL(260)]], pre=[SUB1[0], SUB2], tags=['timeout', 'twice']), d),
                timed(case('c14/timeout-%d-twice-quiet' % d, T('timeout', d, ins=[S(1)]), [[E(1, 'n', 11), SL(40), E(1, 'n', 12), SL(40), E(1, 'c'), SL(300)]], pre=[SUB1[0], SUB2], tags=['timeout', 'twice']), d),
                timed(case('c14/timeout-%d-twice-second-joins-late' % d, T('timeout', d, ins=[S(1)]), [[E(1, 'n', 11), SL(40), SUB2, SL(20), E(1, 'n', 12), SL(260)]], tags=['timeout-slow', 'twice']), d)]
+    # the thread-hopping operators over a cold source, the same observable value subscribed twice, one after the other: each
+    # subscription has its own worker and gets everything
+    cold = T('from_iter', items=[1, 2, 3])
+    for nm, root in [('observe_on', T('observe_on', ins=[cold])), ('subscribe_on', T('subscribe_on', ins=[cold])), ('observe_on-map', T('map', 0, 'inc', ins=[T('observe_on', ins=[T('map', 0, 'inc', ins=[cold])])]))]:
+        cs.append(timed(case('c14/%s-cold/twice' % nm, root, [[SL(100), SUB2, SL(100)]], tags=['twice-cold3']), 100))
     return cs
 
 
